@@ -92,10 +92,10 @@ kf("KF-remove-loop-zero-trip", ["C01"],
    {"op": ["remove_loop", "std.hoist_stmt", "std.hoist_from_loop"], "kind": ["value-mismatch"], "cause": RE(r"loop-lo-eq-hi")},
    "seed loops/zero_trip: remove_loop(`for i in seq(n, n)`)", status="fixed", commit="1bd64eb7")
 kf("KF-prefix-match", ["C01", "C04", "C05"],
-   "statement-list matching zips the two lists, so a shorter list matches a longer one: join_loops accepts bodies [s1,s2]/[s1]; replace of a 2-statement block by a 1-loop callee drops the second statement",
-   "LoopIR_unification / LoopIR_scheduling.DoJoinLoops (LoopIR_Compare.match_stmts uses zip)",
-   {"op": ["replace", "std.replace_all", "std.replace_all_stmts"], "kind": ["value-mismatch"], "cause": RE(r"block-len-[23]")},
-   "seed call/replace1: replace(body[3:5], vset0) keeps only the first loop")
+   "replace unified only the first len(callee body) statements of the selected block but replaced the whole block, deleting the remaining statements",
+   "LoopIR_unification.DoReplace",
+   {"op": ["replace", "std.replace_all", "std.replace_all_stmts"], "kind": ["value-mismatch", "unbound-variable", "unbound"], "cause": RE(r"block-len-[23]")},
+   "seed call/replace1: replace(body[3:5], vset0) keeps only the first loop", status="fixed", commit="a3b60771")
 kf("KF-replace-no-recheck", ["C04", "C05"],
    "replace does not re-check the callee's assertions or size positivity at the new call site",
    "LoopIR_unification.DoReplace",
